@@ -330,11 +330,11 @@ buildexe(struct input *inputs, size_t ninputs, char *output)
 
 	ret = spawn(&pid, &s->cmd, NULL);
 	if (ret)
-		fatal("%s: spawn \"%s\": %s", s->name, *(char **)s->cmd.val, strerror(errno));
-	if (waitpid(pid, &status, 0) < 0)
+		warn("%s: spawn \"%s\": %s", s->name, *(char **)s->cmd.val, strerror(ret));
+	else if (waitpid(pid, &status, 0) < 0)
 		fatal("waitpid %ju:", (uintmax_t)pid);
 	rmtemps();
-	exit(!succeeded(s->name, pid, status));
+	exit(ret || !succeeded(s->name, pid, status));
 }
 
 static char *
